@@ -144,7 +144,7 @@ static void pt_obj(struct hwv_walk *w, hwloc_obj_t o, const char *field)
     for (i = 0; i < o->attr->numanode.page_types_len; i++) { pt_v(w, o->attr->numanode.page_types[i].size); pt_v(w, o->attr->numanode.page_types[i].count); }
     pt_close(w);
   } else if (o->type == HWLOC_OBJ_NUMANODE && o->attr && o->attr->numanode.page_types)
-    pt_opq(w, o->attr->numanode.page_types, "obj.attr.numanode.page_types");
+    pt_opq(w, o->attr->numanode.page_types, "obj.attr.numanode.page_types(len=0)");
   else pt_nullrec(w, "obj.attr.numanode.page_types");
   pt_bitmap(w, o->cpuset, "obj.cpuset", "obj.cpuset.ulongs"); pt_bitmap(w, o->complete_cpuset, "obj.complete_cpuset", "obj.complete_cpuset.ulongs");
   pt_bitmap(w, o->nodeset, "obj.nodeset", "obj.nodeset.ulongs"); pt_bitmap(w, o->complete_nodeset, "obj.complete_nodeset", "obj.complete_nodeset.ulongs");
@@ -153,7 +153,7 @@ static void pt_obj(struct hwv_walk *w, hwloc_obj_t o, const char *field)
     pt_open(w, HK_CHILDREN, o->arity, o->children, "obj.children");
     for (i = 0; i < o->arity; i++) pt_link(w, o->children[i]);
     pt_close(w);
-  } else pt_opq(w, o->children, "obj.children");
+  } else pt_opq(w, o->children, "obj.children(arity=0)");
   pt_obj(w, o->first_child, "obj.first_child"); pt_obj(w, o->memory_first_child, "obj.memory_first_child");
   pt_obj(w, o->io_first_child, "obj.io_first_child"); pt_obj(w, o->misc_first_child, "obj.misc_first_child");
   pt_obj(w, o->next_sibling, "obj.next_sibling");
@@ -179,7 +179,10 @@ static void pt_dist(struct hwv_walk *w, struct hwloc_topology *t, struct hwloc_i
 static void pt_memattrs(struct hwv_walk *w, struct hwloc_topology *t)
 {
   unsigned id, j, k;
-  if (!t->memattrs) { pt_nullrec(w, "memattrs"); return; }
+  if (!t->nr_memattrs) {   /* NO_MEMATTRS: NULL in a loaded topology, a zero-byte allocation in its copy */
+    if (t->memattrs) { fputs("z ", w->f); hwv_rec_add(w, t->memattrs, "memattrs(nr=0)", -3); } else pt_nullrec(w, "memattrs(nr=0)");
+    return;
+  }
   pt_open(w, HK_MEMATTRS, t->nr_memattrs, t->memattrs, "memattrs");
   for (id = 0; id < t->nr_memattrs; id++) {
     struct hwloc_internal_memattr_s *a = &t->memattrs[id];
@@ -187,13 +190,13 @@ static void pt_memattrs(struct hwv_walk *w, struct hwloc_topology *t)
     if (a->iflags & HWLOC_IMATTR_FLAG_STATIC_NAME) { fprintf(w->f, "( %d %lu ", HK_STR, (unsigned long)strlen(a->name) + 1); hwv_rec_add(w, a->name, "memattr.name", -2); pt_bytes(w, a->name, strlen(a->name)); pt_close(w); }
     else pt_str(w, a->name, "memattr.name");
     pt_v(w, a->flags); pt_v(w, a->iflags); pt_v(w, a->nr_targets);
-    if (!a->nr_targets) pt_opq(w, a->targets, "memattr.targets");
+    if (!a->nr_targets) pt_opq(w, a->targets, "memattr.targets(nr=0)");
     else {
       pt_open(w, HK_TARGETS, a->nr_targets, a->targets, "memattr.targets");
       for (j = 0; j < a->nr_targets; j++) {
         struct hwloc_internal_memattr_target_s *tg = &a->targets[j];
         pt_link(w, tg->obj); pt_v(w, (unsigned)tg->type); pt_v(w, tg->os_index); pt_v(w, tg->gp_index); pt_v(w, tg->noinitiator_value); pt_v(w, tg->nr_initiators);
-        if (!tg->nr_initiators) pt_opq(w, tg->initiators, "memattr.initiators");
+        if (!tg->nr_initiators) pt_opq(w, tg->initiators, "memattr.initiators(nr=0)");
         else {
           pt_open(w, HK_INITIATORS, tg->nr_initiators, tg->initiators, "memattr.initiators");
           for (k = 0; k < tg->nr_initiators; k++) {
@@ -214,7 +217,7 @@ static void pt_memattrs(struct hwv_walk *w, struct hwloc_topology *t)
 static void pt_kinds(struct hwv_walk *w, struct hwloc_topology *t)
 {
   unsigned i;
-  if (!t->nr_cpukinds) { pt_opq(w, t->cpukinds, "cpukinds"); return; }
+  if (!t->nr_cpukinds) { pt_opq(w, t->cpukinds, "cpukinds(nr=0)"); return; }
   pt_open(w, HK_KINDS, t->nr_cpukinds, t->cpukinds, "cpukinds");
   for (i = 0; i < t->nr_cpukinds; i++) {
     struct hwloc_internal_cpukind_s *k = &t->cpukinds[i];
@@ -285,7 +288,7 @@ static void hwv_ptree(struct hwv_walk *w, struct hwloc_topology *t)
   pt_close(w);
   for (i = 0; i < HWLOC_NR_SLEVELS; i++) {
     unsigned j;
-    if (!t->slevels[i].nbobjs) { pt_opq(w, t->slevels[i].objs, "slevels.objs"); continue; }
+    if (!t->slevels[i].nbobjs) { pt_opq(w, t->slevels[i].objs, "slevels.objs(nbobjs=0)"); continue; }
     pt_open(w, HK_LEVEL, t->slevels[i].nbobjs, t->slevels[i].objs, "slevels.objs");
     for (j = 0; j < t->slevels[i].nbobjs; j++) pt_link(w, t->slevels[i].objs[j]);
     pt_close(w);
